@@ -63,6 +63,8 @@ def run(ctx, rep):
     if t:
         rep.touched(RT, "DefaultFunction::call")
         rep.guarded("R04-ARITY", lambda: br.rule_arity(t, rep, "R04-ARITY"))
+        from . import btab as _bt
+        rep.guarded("R04-ARITY", lambda: _bt.rule_one_arm(t, rep, "R04-ARITY"))
         rep.guarded("R04-SIG", lambda: br.rule_sig(t, rep, "R04-SIG", oracle_wrong=SIG_ORACLE_WRONG))
         rep.guarded("R04-DIVMOD", lambda: r_divmod(sh, rep, t))
         rep.rule("R04-WRAP", "consByteString: the wrapping variant reduces with mod_floor(256); the checked variant rejects both sides", floor=2)
